@@ -21,7 +21,7 @@ COMMON_NOTE = (
 claim(
     "C03",
     "Lean 4 proof (Finset-sum / bit-level induction) of the loop nest = U⊗I matrix-vector product; exact differential correspondence with the real emulator",
-    "Theorems C03_applyGate_eq_embed, C03_state(_vec/_GD), C03_idle, C03_identity, C03_embed_comm, C03_interleave prove, for every register size, every gate matrix over any commutative semiring, every ordered tuple of distinct qubits and every gate list, that the emulator's bit-twiddling loop nest computes the little-endian embedded matrix product in execution order, that gates without unitary are no-ops and that any interleaving of parallel branches on disjoint qubits gives the same state. The executable model is tied to /repo by exact (Gaussian-dyadic) state-vector comparison on generated programs run through the real emulator, plus direct oracles (numpy kron reference, alias-vs-direct, idle no-op, branch order, let override).",
+    "Theorems C03_applyGate_eq_embed, C03_state(_vec/_GD), C03_idle, C03_identity, C03_embed_comm, C03_interleave prove, for every register size, every gate matrix over any commutative semiring, every ordered tuple of distinct qubits and every gate list, that the emulator's bit-twiddling loop nest computes the little-endian embedded matrix product in execution order, that gates without unitary are no-ops and that any interleaving of parallel branches on disjoint qubits gives the same state. C03_embed_unitary / C03_applyGate_norm / C03_norm_preserved (Props/C03Unitary.lean, any commutative star ring): embedding a unitary gate matrix on any ordered tuple of distinct qubits gives a unitary on the register, the loop nest preserves the norm, and the state computed from unitary gates has norm one — hence (C15_probabilities, over ℂ; C15_probabilities_GD for the executable Gaussian-dyadic program) the outcome probabilities are non-negative and sum to one before any renormalisation. The executable model is tied to /repo by exact (Gaussian-dyadic) state-vector comparison on generated programs run through the real emulator, plus direct oracles (numpy kron reference, alias-vs-direct, idle no-op, branch order, let override).",
     COMMON_NOTE + "Modelled, not verified: the Python loop nest is transcribed by hand; IEEE rounding for non-dyadic matrices is outside the model; trace serialisation and the passes are covered by C08/C12 and C04–C06/C09.",
     "DESIGN.md §7 C03",
 )
@@ -50,7 +50,7 @@ claim(
 claim(
     "C08",
     "Lean 4 proof (refinement of the fuel-indexed walker to a tree-recursive specification, explicit fuel bound) + differential correspondence with run_jaqal_circuit / parse_jaqal_output_list under an alarm",
-    "Theorems C08_terminates, C08_order, C08_unroll, C08_zero, C08_indices (and C03_serialize for the per-trace gate list), lifted to the whole run model (subcircuit blocks, lets and macros expanded first) by C08_run_visits / C08_run_never_hangs, prove for every accepted nesting that the trace walker terminates within an explicit fuel bound, emits exactly the subcircuit visits of the unrolled program in order (a visit = executing the gate at which the trace starts), that loops with count ≤ 0 contribute none while their subcircuits stay numbered, and that readout indices are 0,1,2,… with per-subcircuit counts equal to occurrences. Direct oracles on the real code add: let-valued and overridden loop counts behave like literals, hardware output lists are consumed in visit order, sampled outcomes have non-zero probability, relative frequencies count own readouts.",
+    "Theorems C08_terminates, C08_order, C08_unroll, C08_zero, C08_indices (and C03_serialize for the per-trace gate list), lifted to the whole run model (subcircuit blocks, lets and macros expanded first) by C08_run_visits / C08_run_never_hangs, prove for every accepted nesting that the trace walker terminates within an explicit fuel bound, emits exactly the subcircuit visits of the unrolled program in order (a visit = executing the gate at which the trace starts), that loops with count ≤ 0 contribute none while their subcircuits stay numbered, and that readout indices are 0,1,2,… with per-subcircuit counts equal to occurrences. The hardware-output parser is modelled end to end (Model/OutputList.lean: parse_jaqal_output_list = the same expansion, discovery and walk, consuming one output per visit) and Props/C08Outputs.lean proves, for every circuit and every output list: C08_outputs_one_per_visit (the subcircuit indices of the readouts are exactly the visit sequence of the unrolled program, readout indices 0,1,2,…, the j-th value is the j-th output), C08_outputs_like_emulator (same visits and subcircuit count as the emulator run), C08_outputs_short(_never_ok) (too few outputs ⇒ JaqalError), C08_outputs_extra_ignored(_all), C08_outputs_freq(_nonneg) (each table entry counts the subcircuit's own readouts of that value; a table's total is the number of its visits), C15_outputs_same / _value / _forms (an integer and its n-character bit string are interchangeable entry by entry), C09_outputs_exec (the spelled-out program is reported identically). Direct oracles on the real code add: let-valued and overridden loop counts behave like literals, hardware output lists are consumed in visit order, sampled outcomes have non-zero probability, relative frequencies count own readouts.",
     COMMON_NOTE + "numpy.random.choice is an external oracle (checked per readout, not proved); the real code is run under a 5–10 s alarm, a timeout is a failure.",
     "DESIGN.md §7 C08",
 )
@@ -86,7 +86,7 @@ claim(
 claim(
     "C15",
     "Lean 4 proof (induction on bit strings; exact rational arithmetic) + exhaustive/differential correspondence with jaqalpaq.core.result",
-    "Theorems C15_as_str_length, C15_as_str_bit, C15_roundtrip(_all/_conv), C15_view_keys(_nodup), C15_histogram(_sum), C15_accept_all, C15_normalize(_ok_iff/_id/_reject) prove for every register size k and outcome n < 2^k that as_str has exactly k characters with character i = bit i of n (qubit 0 = LSB = leftmost), that string and integer outputs round-trip, that the *_by_str views list each of the 2^k outcomes exactly once in integer order, that relative frequencies are readout counts, and (over exact rationals) that normalisation yields non-negative probabilities summing to one exactly when the constructor does not raise. Correspondence is exhaustive for k ≤ 7 (quick) / k ≤ 11 (thorough), sampled up to k = 40.",
+    "Theorems C15_as_str_length, C15_as_str_bit, C15_roundtrip(_all/_conv), C15_view_keys(_nodup), C15_histogram(_sum), C15_accept_all, C15_normalize(_ok_iff/_id/_reject) prove for every register size k and outcome n < 2^k that as_str has exactly k characters with character i = bit i of n (qubit 0 = LSB = leftmost), that string and integer outputs round-trip, that the *_by_str views list each of the 2^k outcomes exactly once in integer order, that relative frequencies are readout counts, and (over exact rationals) that normalisation yields non-negative probabilities summing to one exactly when the constructor does not raise. C15_probabilities / C15_probabilities_spec / C15_probabilities_GD (Props/C03Unitary.lean) prove that the exact state the emulator computes from unitary gate matrices has squared amplitudes that are non-negative and sum to one, for every register size, qubit tuple and gate list (the renormalisation then only repairs floating-point rounding). Correspondence is exhaustive for k ≤ 7 (quick) / k ≤ 11 (thorough), sampled up to k = 40.",
     COMMON_NOTE + "Float rounding in the renormalisation (sum = 1 only to ~1 ulp) is runtime behaviour outside the model; compared with tolerance 1e-12. The cutoff constants are decimal in the model (2e-6, 1e-13); the doubles differ by < 1e-22.",
     "DESIGN.md §7 C15",
 )
